@@ -31,10 +31,10 @@ PROPS = {
                 quick=dict(runs=192, budget_s=150, min_runs=40),
                 thorough=dict(runs=4000, budget_s=1500, min_runs=400),
                 watchdog_s=240, spot=3),
-    'C07': dict(engine='adjoint_sim',
-                quick=dict(runs=640, budget_s=100, min_runs=60),
-                thorough=dict(runs=12000, budget_s=900, min_runs=600),
-                watchdog_s=180, spot=3),
+    'C07': dict(engine='c07_sim',
+                quick=dict(runs=480, budget_s=240, min_runs=60),
+                thorough=dict(runs=8000, budget_s=1800, min_runs=600),
+                watchdog_s=600, spot=3, jaxcache=True),
     'C09': dict(engine='matpoint_sim',
                 quick=dict(runs=48, budget_s=200, min_runs=16),
                 thorough=dict(runs=1600, budget_s=1800, min_runs=200),
@@ -50,11 +50,11 @@ PROPS = {
     'C15': dict(engine='fe_app_sim',
                 quick=dict(runs=48, budget_s=240, min_runs=16),
                 thorough=dict(runs=1200, budget_s=1800, min_runs=150),
-                watchdog_s=600, spot=2, jaxcache=True),
+                watchdog_s=900, spot=2, jaxcache=True),
     'C02': dict(engine='fe_app_sim',
-                quick=dict(runs=48, budget_s=240, min_runs=16),
+                quick=dict(runs=32, budget_s=300, min_runs=12),
                 thorough=dict(runs=1200, budget_s=1800, min_runs=150),
-                watchdog_s=600, spot=2, jaxcache=True),
+                watchdog_s=900, spot=2, jaxcache=True),
 }
 
 
